@@ -159,7 +159,7 @@ def replay(path):
     """./check X02 --replay <file>: regenerate the recorded library (kind, payload, seed) and run the chain again"""
     c = vlib.Check('X02', 'replay')
     trace = os.path.join(vlib.scratch(), 'replay.ndjson')
-    vlib.run_driver('drive_pipeline.py', [trace, 'replay', path])
+    vlib.run_driver('drive_pipeline.py', [trace, 'replay', os.path.abspath(path)])
     events = vlib.read_ndjson(trace)
     r = _judge(c, trace, events)
     for x in r['rejects']:
